@@ -125,6 +125,17 @@ def cases(tier):
         for shape in ("query Shallow($deep: Boolean = %s) { a { b @include(if: $deep) { c { d } } } } query Deep($deep: Boolean = %s) { a { b @include(if: $deep) { c { d } } } }",
                       "query One($off: Boolean = %s) { a { b @skip(if: $off) { c } x } } query Two($off: Boolean = %s) { a { ...F @skip(if: $off) } } fragment F on T { b { c { d } } }"):
             yield shape % (first, second), {}
+    # response keys that merely look like meta fields, and the meta fields themselves, are fields like any other for the depth
+    yield "{ __x: a { b { c { d } } } y: a }", {}
+    yield "{ a __deep: hero { friends { friends { name } } } }", {}
+    yield "{ __schema { types { fields { type { name } } } } }", {}
+    yield "{ a { __typename b { __typename } } }", {}
+    # both conditions on one selection, in both orders: skipped when @skip says so OR @include says not to include
+    for sk, inc in ((True, True), (True, False), (False, True), (False, False)):
+        for order in ("@skip(if: %s) @include(if: %s)" % (str(sk).lower(), str(inc).lower()), "@include(if: %s) @skip(if: %s)" % (str(inc).lower(), str(sk).lower())):
+            yield "{ a { b %s { c { d } } } x }" % order, {}
+            yield "{ a { ... %s { b { c { d } } } } x }" % order, {}
+        yield "query ($s: Boolean!, $i: Boolean!) { a { ...F @skip(if: $s) @include(if: $i) } x } fragment F on T { b { c { d } } }", {"s": sk, "i": inc}
     # the same fragment spread twice in one selection set, one spread switched off (either one, by literal or by variable; at the top and below a field)
     deep = " fragment Deep on T { a { b { c } } } fragment Flat on T { z }"
     for first, second in (("@include(if: $a)", "@include(if: $b)"), ("@skip(if: $b)", "@skip(if: $a)"), ("@skip(if: true)", ""), ("", "@skip(if: true)"),
